@@ -4,10 +4,11 @@ import DudModel.Lemmas.Holds
 /-!
 # Compatibility of a tree with the old manifests a recommit starts from
 
-`commitWorker` reuses the child artifact found (by name) in the old manifest, including its
-`IsDir`.  `CompatNode ctx s t sum` says that along the tree the old manifests reachable from the
-checksum `sum` through the store `s` are readable, present (or the checksum is empty) and agree
-with the tree on file-versus-directory.
+`commitWorker` reuses the child artifact found (by name) in the old manifest when its kind
+(`IsDir`) agrees with the workspace entry; otherwise it starts from a fresh child.
+`CompatNode ctx s t sum` says that along the tree the old manifests that *are* reused, reachable
+from the checksum `sum` through the store `s`, are present (or the checksum is empty) and
+readable.
 -/
 namespace Dud
 
@@ -23,7 +24,7 @@ def CompatNode (ctx : Ctx κ) (s : Store κ) : Node κ → Digest → Prop
 def CompatList (ctx : Ctx κ) (s : Store κ) : List (Name × Node κ) → List Child → Prop
   | [], _ => True
   | (nm, n) :: r, old =>
-    (∀ k, findChild old nm = some k → k.isDir = n.isDir ∧ CompatNode ctx s n k.sum) ∧
+    (∀ k, findChild old nm = some k → k.isDir = n.isDir → CompatNode ctx s n k.sum) ∧
       CompatList ctx s r old
 end
 
@@ -46,7 +47,7 @@ theorem CompatList.mono {ctx : Ctx κ} (g : Good ctx) {s s1 : Store κ} (hle : S
   | [], _, _ => by simp [CompatList]
   | (nm, n) :: r, old, h => by
     simp only [CompatList] at h ⊢
-    exact ⟨fun k hk => ⟨(h.1 k hk).1, CompatNode.mono g hle n k.sum (h.1 k hk).2⟩,
+    exact ⟨fun k hk hd => CompatNode.mono g hle n k.sum (h.1 k hk hd),
       CompatList.mono g hle r old h.2⟩
 end
 
@@ -56,7 +57,7 @@ theorem compatList_nil (ctx : Ctx κ) (s : Store κ) : ∀ (es : List (Name × N
   | [] => by simp [CompatList]
   | (nm, n) :: r => by
     simp only [CompatList]
-    exact ⟨fun k hk => by simp [findChild] at hk, compatList_nil ctx s r⟩
+    exact ⟨fun k hk _ => by simp [findChild] at hk, compatList_nil ctx s r⟩
 
 /-- a fresh child artifact (no checksum) is compatible with every tree -/
 theorem compatNode_empty (ctx : Ctx κ) (s : Store κ) (t : Node κ) : CompatNode ctx s t "" := by
@@ -98,12 +99,79 @@ theorem compatList_of_holds {ctx : Ctx κ} (g : Good ctx) {s : Store κ} :
     simp only [CompatList]
     refine ⟨?_, compatList_of_holds g r ch old (sortedList_cons hs).2 (namesOK_tail hn) h.2
       (fun e he => hfind e (by simp [he]))⟩
-    intro k hk
+    intro k hk _
     have hf := hfind (nm, n) (by simp)
     rw [hf] at hk
     cases hk
-    exact ⟨rfl, compatNode_of_holds g n (subChoice ch nm) nm (sortedList_cons hs).1
-      (namesOK_node hn) h.1⟩
+    exact compatNode_of_holds g n (subChoice ch nm) nm (sortedList_cons hs).1
+      (namesOK_node hn) h.1
+end
+
+/-! ## any tree is compatible with the manifests of a held tree of the same kind -/
+
+theorem holdsList_mem {ctx : Ctx κ} {s : Store κ} {ch : Choice} : ∀ {es : List (Name × Node κ)}
+    {e : Name × Node κ}, HoldsList ctx s ch es → e ∈ es → HoldsNode ctx s (subChoice ch e.1) e.1 e.2
+  | (nm, n) :: r, e, h, he => by
+    simp only [HoldsList] at h
+    rcases List.mem_cons.1 he with rfl | he'
+    · exact h.1
+    · exact holdsList_mem h.2 he'
+
+theorem sortedList_mem : ∀ {es : List (Name × Node κ)} {e : Name × Node κ},
+    sortedList es = true → e ∈ es → e.2.sorted = true
+  | (nm, n) :: r, e, h, he => by
+    rcases List.mem_cons.1 he with rfl | he'
+    · exact (sortedList_cons h).1
+    · exact sortedList_mem (sortedList_cons h).2 he'
+
+theorem namesOKList_mem {ctx : Ctx κ} : ∀ {es : List (Name × Node κ)} {e : Name × Node κ},
+    NamesOKList ctx es → e ∈ es → NamesOK ctx e.2
+  | (nm, n) :: r, e, h, he => by
+    rcases List.mem_cons.1 he with rfl | he'
+    · exact namesOK_node h
+    · exact namesOKList_mem (namesOK_tail h) he'
+
+/-- a child found in the manifest of a listing is the child of one of its entries -/
+theorem findChild_childrenAs_mem {ctx : Ctx κ} {ch : Choice} {es : List (Name × Node κ)}
+    {nm : Bytes} {k : Child} (h : findChild (childrenAs ctx ch es) nm = some k) :
+    ∃ e ∈ es, k = ⟨e.1, digestAs ctx (subChoice ch e.1) e.1 e.2, e.2.isDir⟩ := by
+  have hm := List.mem_of_find?_eq_some h
+  rw [childrenAs_eq_map] at hm
+  obtain ⟨e, he, rfl⟩ := List.mem_map.1 hm
+  exact ⟨e, he, rfl⟩
+
+mutual
+/-- **Any** tree `t2` (edited however) of the same kind as a held tree `t1` is compatible with the
+manifests of `t1`: where kinds agree entry by entry the old manifests are present and readable,
+where they do not the old child is not reused. -/
+theorem compatNode_any {ctx : Ctx κ} (g : Good ctx) {s : Store κ} :
+    ∀ (t2 t1 : Node κ) (ch : Choice) (nm : Bytes), t1.sorted = true → NamesOK ctx t1 →
+      HoldsNode ctx s ch nm t1 → t1.isDir = t2.isDir → CompatNode ctx s t2 (digestAs ctx ch nm t1)
+  | .dir es2, .dir es1, ch, nm, hs, hn, h, _ => by
+    have hs' : sortedList es1 = true := by simpa [Node.sorted] using hs
+    have hn' : NamesOKList ctx es1 := namesOK_dir hn
+    simp only [CompatNode]
+    refine ⟨fun _ => (readManifest_holds g hs' hn' h).1, childrenAs ctx ch es1,
+      oldManifest_holds g hs' hn' h, ?_⟩
+    simp only [HoldsNode] at h
+    exact compatList_any g es2 es1 ch hs' hn' h.2
+  | .dir _, .file _, _, _, _, _, _, hd => by simp [Node.isDir] at hd
+  | .dir _, .link _, _, _, _, _, _, hd => by simp [Node.isDir] at hd
+  | .dir _, .other, _, _, _, _, _, hd => by simp [Node.isDir] at hd
+  | .file _, _, _, _, _, _, _, _ => by simp [CompatNode]
+  | .link _, _, _, _, _, _, _, _ => by simp [CompatNode]
+  | .other, _, _, _, _, _, _, _ => by simp [CompatNode]
+theorem compatList_any {ctx : Ctx κ} (g : Good ctx) {s : Store κ} :
+    ∀ (es2 es1 : List (Name × Node κ)) (ch : Choice), sortedList es1 = true →
+      NamesOKList ctx es1 → HoldsList ctx s ch es1 → CompatList ctx s es2 (childrenAs ctx ch es1)
+  | [], _, _, _, _, _ => by simp [CompatList]
+  | (nm, n2) :: r2, es1, ch, hs, hn, h => by
+    simp only [CompatList]
+    refine ⟨?_, compatList_any g r2 es1 ch hs hn h⟩
+    intro k hk hkind
+    obtain ⟨e, he, rfl⟩ := findChild_childrenAs_mem hk
+    exact compatNode_any g n2 e.2 (subChoice ch e.1) e.1 (sortedList_mem hs he)
+      (namesOKList_mem hn he) (holdsList_mem h he) hkind
 end
 
 end Dud
